@@ -122,4 +122,50 @@ theorem tGetMatrix_history_dependent_counterexample :
     exWrong.tGetMatrixOut.e 0 0 ≠ (exWrong.step .getMatrix).tGetMatrixOut.e 0 0 := by
   decide
 
+/-! ## a transposed model kept across later operations on its parent -/
+
+/-- `T` used right away is the `T` of `Model/C07.lean`: `takeT` followed by `T.forward` / `T.adjoint` are `tFwdPar` / `tAdjPar`,
+    and a history `T, op₁, …, opₙ` leaves the kept `T` untouched while the parent runs `op₁ … opₙ`. -/
+theorem keptT_fresh (o : Obj R) (post : List (Op R)) (x y : ℕ → R) :
+    o.takeT.fwdPar o y = o.M.tFwdPar y ∧ o.takeT.adjPar o x = o.M.tAdjPar x ∧
+    ({ o := o, t := none } : HState R).run (HOp.takeT :: post.map HOp.base) = { o := o.run post, t := some o.takeT } :=
+  ⟨rfl, rfl, hstate_run_base post _⟩
+
+example : exObj.takeT.fwdPar exObj (unit 1) = exObj.M.tFwdPar (unit 1) := (keptT_fresh exObj [] (unit 0) (unit 1)).1
+
+/-- **A kept `T` follows its parent as long as the RANGE geometry is not re-assigned** (reshaping geometries): after `T = M.T` and
+    ANY later history of `get_matrix()` / `domain_geometry = g` on the parent, `T.forward` is the parent's current `adjoint`.
+    Symmetrically `T.adjoint` is the parent's current `forward` as long as the DOMAIN geometry is not re-assigned. -/
+theorem keptT_follows_parent (o : Obj R) (post : List (Op R)) (hD0 : o.M.dom.reshapeLike = true)
+    (hR0 : o.M.rng.reshapeLike = true) (x y : ℕ → R) :
+    ((∀ op ∈ post, ∀ g, op ≠ Op.setRng g) → o.takeT.fwdPar (o.run post) y = (o.run post).M.adjPar y) ∧
+    ((∀ op ∈ post, ∀ g, op ≠ Op.setDom g) → o.takeT.adjPar (o.run post) x = (o.run post).M.fwdPar x) := by
+  constructor
+  · intro h
+    have hr := run_rng_of_noSetRng post o h
+    simp only [TObj.fwdPar, Obj.takeT, LinModel.adjPar, Geom.reE, Geom.reF, hD0, hr, hR0, if_true]
+  · intro h
+    have hd := run_dom_of_noSetDom post o h
+    simp only [TObj.adjPar, Obj.takeT, LinModel.fwdPar, Geom.reE, Geom.reF, hR0, hd, hD0, if_true]
+
+/-- the 4×4 identity operator on `Image2D((2,2))` (order C) geometries -/
+def exImg : Obj ℤ :=
+  Obj.fresh { A := LMat.identity 4, B := LMat.identity 4, dom := Geom.image 2 2 false, rng := Geom.image 2 2 false, matrixBacked := false }
+
+example : exImg.takeT.fwdPar (exImg.run [.getMatrix, .setDom (Geom.image 2 2 true)]) (unit 1)
+    = (exImg.run [.getMatrix, .setDom (Geom.image 2 2 true)]).M.adjPar (unit 1) :=
+  (keptT_follows_parent exImg _ rfl rfl (unit 0) (unit 1)).1 (by
+    intro op hm g
+    simp only [List.mem_cons, List.not_mem_nil, or_false] at hm
+    rcases hm with rfl | rfl <;> exact fun h => by cases h)
+
+/-- **Negative result (proposed known finding `LinearModel:T-kept:*@history:geometry-reassigned-after-T`).**
+    `T = M.T; M.domain_geometry = Image2D((2,2), order="F")`: the kept `T` computes `T.forward` through the parent's NEW domain
+    geometry but `T.adjoint` through the OLD one (its own `range_geometry`), so `T` is no longer a linear model whose adjoint is
+    the transpose of its forward: `T.forward(e_1)[1] = 0`, `T.adjoint(e_1)[1] = 1`. -/
+theorem keptT_stale_counterexample :
+    exImg.takeT.fwdPar (exImg.run [.setDom (Geom.image 2 2 true)]) (unit 1) 1
+      ≠ exImg.takeT.adjPar (exImg.run [.setDom (Geom.image 2 2 true)]) (unit 1) 1 := by
+  decide
+
 end CuqiVerif.C07
